@@ -903,7 +903,15 @@ impl MultiEngine {
                     if !nout.is_empty() {
                         stop!(Some(v("unknown-address-triggered-send", &[], format!("a datagram from unknown address {} made the endpoint send {} datagram(s)", a, nout.len()))));
                     }
-                    let connectish = d.len() >= 4 && d[0] & 0x30 == 0x10 && d[3] == 1;
+                    // a connect request by the wire format: control flag, not connectionless, control byte 1 —
+                    // after Huffman decompression if the compression flag is set (the library accepts that, with a warning)
+                    let connectish = d.len() >= 4 && d[0] & 0x30 == 0x10 && {
+                        if d[0] & 0x80 != 0 {
+                            libtw2_huffman::instances::TEEWORLDS.decompress_into_vec(&d[3..]).ok().and_then(|p| p.first().copied()) == Some(1)
+                        } else {
+                            d[3] == 1
+                        }
+                    };
                     let canonical = d == CONNECT_TOKEN || d == CONNECT_PLAIN;
                     let mut created = None;
                     for (pid, e) in &evs {
